@@ -34,10 +34,12 @@ class CycleNode(Node):
         super().__init__(token)
         self.name = name
         self.items = tuple(items)
-        # Iterators are identified by their name and items, compared by equality. A
-        # bare hash conflates distinct items that happen to hash alike, like -1 and
-        # -2, or 1 and true.
-        self.cycle_hash = (self.name, self.items)
+        # Iterators are identified by their name and items. A bare hash conflates
+        # distinct items that happen to hash alike, like -1 and -2, or 1 and true.
+        # The source text of the items tells 1 from true, 0.0 from -0.0 and `a` from
+        # 'a', equates two template strings written the same way, and is cheap to
+        # hash on every render.
+        self.cycle_hash = (self.name, tuple(str(item) for item in self.items))
         self.blank = False
 
     def __str__(self) -> str:
